@@ -43,18 +43,32 @@ func vRunCase2(t *testing.T, c vCase) (msg string) {
 			}
 		}
 		old := rand.Reader
-		rand.Reader = &vScriptReader{data: append([]byte(nil), stream...), chunk: c.N}
 		defer func() { rand.Reader = old }()
-		panicked := false
+		// the receiver's previous value must not matter: fresh, one, minus one, and a previously drawn value
 		var got *Scalar
-		func() {
-			defer func() {
-				if r := recover(); r != nil {
-					panicked = true
-				}
+		panicked := false
+		for ri, recv := range []func() *Scalar{NewScalar, func() *Scalar { return NewScalar().One() }, func() *Scalar { return NewScalar().MinusOne() },
+			func() *Scalar { return vScalarOf(t, big.NewInt(424242)) }} {
+			rd := &vScriptReader{data: append([]byte(nil), stream...), chunk: c.N}
+			rand.Reader = rd
+			p2 := false
+			var g2 *Scalar
+			func() {
+				defer func() {
+					if r := recover(); r != nil {
+						p2 = true
+					}
+				}()
+				g2 = recv().Random()
 			}()
-			got = NewScalar().Random()
-		}()
+			if ri == 0 {
+				got, panicked = g2, p2
+				continue
+			}
+			if p2 != panicked || (!p2 && !bytes.Equal(g2.Encode(), got.Encode())) {
+				return "Random depends on the receiver's previous value (receiver variant " + itoa(ri) + ")"
+			}
+		}
 		if want == nil {
 			if !panicked {
 				return "entropy source failed before any usable block but Random returned " + got.Hex()
